@@ -282,6 +282,16 @@ def run(ctx):
     if len(ids) < 300:
         raise RuntimeError('could not read the zone list of chrono-tz from the harness build directory (%d ids)' % len(ids))
     H = header(ids)
+    # the identifiers the implementation links (chrono-tz) against an independent copy of the IANA database (Python zoneinfo / system tzdata)
+    try:
+        import zoneinfo
+        sysids = set(zoneinfo.available_timezones())
+    except Exception:
+        sysids = set()
+    zone_cov = {'chrono_tz_ids': len(ids), 'system_tzdata_ids': len(sysids), 'in_both': len(sysids & set(ids)),
+                'only_chrono_tz': sorted(set(ids) - sysids)[:20], 'only_system': sorted(sysids - set(ids))[:20]}
+    if sysids and len(sysids & set(ids)) < 0.9 * len(ids):
+        ctx.notes.append('less than 90%% of chrono-tz zone ids are known to the system tzdata: %s' % zone_cov)
     cases = []
     cases += [('date', t) for t in gen_dates(rng, ctx.pick(400, 6000))]
     cases += [('time', t) for t in gen_times(rng, ids, ctx.pick(600, 8000), None)]
@@ -363,7 +373,7 @@ def run(ctx):
              'fraction digit strings of 1..12 digits chosen to be awkward for binary floating point; date-times combining these; durations (normalised and not, zero, negative, 0..12 fraction digits, '
              'components up to 2^64-1, wrong order, missing T); systematic single-character deletions/duplications/insertions/replacements of 17 valid literals; each through F("text"), string(), '
              'F(string()) and @"text"; non-trivial = invalid, corrupted, signed, fractional, zoned' % len(ids),
-        extra_cov={'exhaustive': False, 'whole_minute_offsets': len(all_offsets()), 'zone_ids': len(ids), 'cases_by_kind': kinds},
+        extra_cov={'exhaustive': False, 'whole_minute_offsets': len(all_offsets()), 'zone_ids': len(ids), 'zone_ids_vs_independent_copy': zone_cov, 'cases_by_kind': kinds},
         assumptions=['zone database membership is taken from chrono-tz\'s generated table (the identifiers the implementation links)',
                      'a zero offset (+00:00, -00:00) denotes UTC and prints as Z (as the code does; named interpretive choice)',
                      'fraction digits after the ninth are dropped (pinned by the repository\'s tests)',
